@@ -148,6 +148,11 @@ fn d_futex_wait() -> Driven {
     let w = AtomicU32::new(0);
     unit(rusl::futex::futex_wait(&w, 0, FutexFlags::PRIVATE, Some(TimeSpec::new(0, 1))))
 }
+fn d_futex_wait_untimed() -> Driven {
+    // (the call is never executed: every case of this table forces the return register)
+    let w = AtomicU32::new(0);
+    unit(rusl::futex::futex_wait(&w, 0, FutexFlags::PRIVATE, None))
+}
 fn d_futex_wake() -> Driven {
     let w = AtomicU32::new(0);
     count(rusl::futex::futex_wake(&w, 1))
@@ -266,6 +271,10 @@ fn d_ppoll() -> Driven {
     let ts = TimeSpec::new(0, 0);
     count(rusl::select::ppoll(&mut fds, Some(&ts), None))
 }
+fn d_ppoll_untimed() -> Driven {
+    let mut fds = [PollFd::new(fd(5), PollEvents::POLLIN)];
+    count(rusl::select::ppoll(&mut fds, None, None))
+}
 fn d_tcgetattr() -> Driven {
     unit(rusl::termios::tcgetattr(tty_fd()))
 }
@@ -280,6 +289,10 @@ fn d_nanosleep() -> Driven {
     let ts = TimeSpec::new(0, 1);
     let mut rem = TimeSpec::new_zeroed();
     unit(rusl::time::nanosleep(&ts, Some(core::ptr::from_mut(&mut rem))))
+}
+fn d_nanosleep_no_rem() -> Driven {
+    let ts = TimeSpec::new(0, 1);
+    unit(rusl::time::nanosleep(&ts, None))
 }
 fn d_nanosleep_same_ptr() -> Driven {
     let mut ts = TimeSpec::new(0, 1);
@@ -476,6 +489,7 @@ macro_rules! w {
 /// * mount appears twice: its two `syscall!` sites (with / without data) are separate code.
 pub static TABLE: &[Wrapper] = &[
     w!("futex_wait", "futex.rs::futex_wait", Zero, Unit, d_futex_wait),
+    w!("futex_wait(no timeout)", "futex.rs::futex_wait", Zero, Unit, d_futex_wait_untimed),
     w!("futex_wake", "futex.rs::futex_wake", Count, Usize, d_futex_wake),
     w!("io_uring_setup", "io_uring.rs::io_uring_setup", FdPid, I32, d_io_uring_setup),
     w!("io_uring_register_files", "io_uring.rs::io_uring_register_files", Zero, Unit, d_io_uring_register_files),
@@ -506,11 +520,13 @@ pub static TABLE: &[Wrapper] = &[
     w!("epoll_del", "select/epoll.rs::epoll_del", Zero, Unit, d_epoll_del),
     w!("epoll_wait", "select/epoll.rs::epoll_wait", Count, Usize, d_epoll_wait),
     w!("ppoll", "select/poll.rs::ppoll", Count, Usize, d_ppoll),
+    w!("ppoll(no timeout)", "select/poll.rs::ppoll", Count, Usize, d_ppoll_untimed),
     // tcgetattr/stat*/uname assume_init() an internal MaybeUninit::uninit(): executed on success
     w!("tcgetattr", "termios/tcgetattr.rs::tcgetattr", Zero, Unit, d_tcgetattr, exec),
     w!("tcsetattr", "termios/tcsetattr.rs::tcsetattr", Zero, Unit, d_tcsetattr),
     w!("clock_get_time", "time/clock_get_time.rs::clock_get_time", Zero, Unit, d_clock_get_time),
     w!("nanosleep", "time/sleep.rs::nanosleep", Zero, Unit, d_nanosleep),
+    w!("nanosleep(no rem)", "time/sleep.rs::nanosleep", Zero, Unit, d_nanosleep_no_rem),
     w!("nanosleep_same_ptr", "time/sleep.rs::nanosleep_same_ptr", Zero, Unit, d_nanosleep_same_ptr),
     w!("chdir", "unistd/chdir.rs::chdir", Zero, Unit, d_chdir),
     w!("close", "unistd/close.rs::close", Zero, Unit, d_close),
